@@ -137,6 +137,10 @@ def gen(rng, tier):
     ops = []
     gens_open = []
     nops = rng.randint(5, 40)
+    scenario = None
+    if rng.chance(0.4):
+        scenario, nid = _scenario(rng, pool, kinds, nid, faults)
+    insert_at = rng.randint(0, 6)
     names = [n for n in OPS if OPS[n][0] is not None]
     for _ in range(nops):
         r = rng.random()
@@ -184,7 +188,126 @@ def gen(rng, tier):
                 nid += 1
             ops.append(op)
             break
+    if scenario:
+        ops = ops[:insert_at] + scenario + ops[insert_at:]
     return {"pool": pool, "ops": ops, "faults": faults}
+
+
+def _scenario(rng, pool, kinds, nid, faults):
+    """a short history of a kind that is known to stress caches and aliasing (swarm profile); the objects it needs
+    are added to the pool"""
+    def need(k, desc=None):
+        nonlocal nid
+        have = [i for i, kk in kinds if kk == k]
+        if have and desc is None and rng.chance(0.6):
+            return rng.pick(have)
+        pool.append({"id": nid, "kind": k, "desc": desc if desc is not None else KIND_GEN[k](rng)})
+        kinds.append((nid, k))
+        nid += 1
+        return nid - 1
+
+    def new(k):
+        nonlocal nid
+        kinds.append((nid, k))
+        nid += 1
+        return nid - 1
+    mut = lambda on, which: {"op": "mutate", "on": on, "arg": [which, rng.randrange(6), rng.randrange(6), rng.randrange(6)]}
+    arg = lambda: rng.randrange(len(PROBE))
+    t = rng.pick(["reintersect", "regex_family", "eps_edit", "fst_grow", "pda_alias", "ig_edit", "cfg_requery",
+                  "double_intersection", "fa_requery"])
+    ops = []
+    if t == "reintersect":
+        g = need("cfg")
+        if rng.chance(0.7):
+            # a DFA is used as it is by intersection (others are determinised into fresh objects): its State
+            # objects survive from one conversion to the next; 4 states + 1 makes the state set re-hash
+            d = None
+            for _ in range(8):
+                d = _fa_desc(rng, "dfa")
+                if len(d["states"]) == 4 and d["kind"] == "dfa":
+                    break
+            a = need("fa", d)
+        else:
+            a = need("fa")
+        ops.append({"op": "cfg.intersection", "on": g, "other": a, "arg": arg(), "new": new("cfg")})
+        if faults and rng.chance(0.8):
+            ops.append(mut(a, rng.pick([7, 7, 7, 0, 3])))
+            b = a
+        else:
+            b = new("fa")
+            ops.append({"op": rng.pick(["fa.copy", "fa.shared"]), "on": a, "arg": 0, "new": b})
+        y = new("cfg")
+        ops.append({"op": "cfg.intersection", "on": g, "other": b, "arg": arg(), "new": y})
+        ops.append({"op": "cfg.words", "on": y, "arg": 0})
+    elif t == "regex_family":
+        r1, r2 = need("regex"), need("regex")
+        u = new("regex")
+        ops.append({"op": rng.pick(["regex.union", "regex.concatenate"]), "on": r1, "other": r2, "arg": 0, "new": u})
+        ops.append({"op": "regex.accepts", "on": u, "arg": arg()})
+        ops.append({"op": "regex.accepts", "on": r1, "arg": arg()})
+        f = new("fa")
+        ops.append({"op": "regex.to_epsilon_nfa", "on": rng.pick([u, r1]), "arg": 0, "new": f})
+        if faults:
+            ops.append(mut(f, rng.pick([1, 2, 0])))
+        ops.append({"op": "regex.accepts", "on": u, "arg": arg()})
+        ops.append({"op": "regex.accepts", "on": r2, "arg": arg()})
+    elif t == "eps_edit":
+        a = need("fa", _fa_desc(rng, "enfa"))
+        ops.append({"op": "fa.accepts", "on": a, "arg": arg()})
+        if faults:
+            ops.append(mut(a, rng.pick([5, 6, 5])))
+        ops.append({"op": "fa.accepts", "on": a, "arg": arg()})
+        ops.append({"op": rng.pick(["fa.to_deterministic", "fa.remove_epsilon_transitions", "fa.minimize"]), "on": a,
+                    "arg": 0, "new": new("fa")})
+        ops.append({"op": "fa.words", "on": a, "arg": 0})
+        ops.append({"op": "fa.is_deterministic", "on": a, "arg": 0})
+    elif t == "fst_grow":
+        f = need("fst")
+        ops.append({"op": "fst.translate", "on": f, "arg": arg()})
+        if faults:
+            ops.append(mut(f, 2))
+            ops.append(mut(f, 3))
+        for _ in range(3):
+            ops.append({"op": "fst.translate", "on": f, "arg": arg()})
+    elif t == "pda_alias":
+        p_ = need("pda")
+        q = new("pda")
+        ops.append({"op": rng.pick(["pda.to_final_state", "pda.to_empty_stack"]), "on": p_, "arg": 0, "new": q})
+        if faults:
+            ops.append(mut(q, 0))
+            ops.append(mut(q, 0))
+        g = new("cfg")
+        ops.append({"op": "pda.to_cfg", "on": p_, "arg": 0, "new": g})
+        ops.append({"op": "cfg.words", "on": g, "arg": 0})
+    elif t == "ig_edit":
+        i = need("ig")
+        ops.append({"op": "ig.is_empty", "on": i, "arg": 0})
+        if faults:
+            ops.append(mut(i, 0))
+        ops.append({"op": "ig.is_empty", "on": i, "arg": 0})
+        if faults:
+            ops.append(mut(i, 1))
+        ops.append({"op": "ig.is_empty", "on": i, "arg": 0})
+    elif t == "cfg_requery":
+        g = need("cfg")
+        for name in rng.sample(["cfg.contains", "cfg.generate_epsilon", "cfg.symbols", "cfg.words", "cfg.is_empty",
+                                "cfg.is_finite", "cfg.contains", "cfg.generate_epsilon", "cfg.tree"], 6):
+            ops.append({"op": name, "on": g, "arg": rng.pick([0, 0, arg()])})
+    elif t == "double_intersection":
+        g, r, a = need("cfg"), need("regex"), need("fa")
+        ops.append({"op": "cfg.intersection_regex", "on": g, "other": r, "arg": 0, "new": new("cfg")})
+        y = new("cfg")
+        ops.append({"op": "cfg.intersection", "on": g, "other": a, "arg": 0, "new": y})
+        ops.append({"op": "cfg.words", "on": y, "arg": 0})
+        ops.append({"op": "cfg.words", "on": g, "arg": 0})
+    else:
+        a = need("fa")
+        for name in rng.sample(["fa.accepts", "fa.words", "fa.is_deterministic", "fa.is_acyclic", "fa.is_empty",
+                                "fa.accepts", "fa.words"], 5):
+            ops.append({"op": name, "on": a, "arg": arg()})
+        if faults:
+            ops.insert(2, mut(a, rng.pick([6, 0, 5])))
+    return ops, nid
 
 
 def shrink(case):
@@ -250,11 +373,14 @@ def apply_mutator(kind, obj, arg):
     Returns a description, or None if not applicable.  Documented exceptions leave the object unchanged."""
     a0, a1, a2, a3 = arg
     if kind == "fa":
-        from pyformlang.finite_automaton import DeterministicFiniteAutomaton
+        from pyformlang.finite_automaton import DeterministicFiniteAutomaton, Epsilon
         from pyformlang.finite_automaton.transition_function import DuplicateTransitionError
         sts = _sorted_vals([s.value for s in obj.states]) or ["m0"]
         p, q = sts[a1 % len(sts)], sts[a2 % len(sts)]
-        which = a0 % 5
+        which = a0 % 8
+        from pyformlang.finite_automaton import EpsilonNFA
+        if which == 5 and type(obj) is not EpsilonNFA:
+            which = 0
         try:
             if which == 0:
                 obj.add_transition(p, TOK[a3 % 2], q)
@@ -268,6 +394,17 @@ def apply_mutator(kind, obj, arg):
             if which == 3:
                 obj.add_start_state(q)
                 return "add_start_state"
+            if which == 5:
+                obj.add_transition(p, "epsilon", q)     # the string spelling of an epsilon move
+                return "add_transition(epsilon as string)"
+            if which == 6:
+                edges = sorted(((_skey(x.value), "" if isinstance(y, Epsilon) else str(y.value), _skey(z.value)), x, y, z)
+                               for x, y, z in obj)
+                if not edges:
+                    return None
+                _, x, y, z = edges[a1 % len(edges)]
+                obj.remove_transition(x.value, "epsilon" if isinstance(y, Epsilon) else y.value, z.value)
+                return "remove_transition"
             obj.add_transition(q, TOK[a3 % 2], "fresh%d" % (a3 % 2))
             return "add_transition(new state)"
         except DuplicateTransitionError:
@@ -283,11 +420,21 @@ def apply_mutator(kind, obj, arg):
         return "add_final_state"
     if kind == "fst":
         sts = _sorted_vals(list(obj.states)) or ["m0"]
-        if a0 % 2 == 0:
+        which = a0 % 4
+        if which == 0:
             obj.add_transition(sts[a1 % len(sts)], TOK[a3 % 2], sts[a2 % len(sts)], ["u"] * (a3 % 2))
             return "add_transition"
-        obj.add_final_state(sts[a1 % len(sts)])
-        return "add_final_state"
+        if which == 1:
+            obj.add_final_state(sts[a1 % len(sts)])
+            return "add_final_state"
+        if which == 2:
+            # first half of a new path through a fresh state (start side first)
+            obj.add_transition(sts[a1 % len(sts)], TOK[a3 % 2], "zfresh", ["u"])
+            return "add_transition(to fresh state)"
+        src = "zfresh" if "zfresh" in obj.states else sts[a1 % len(sts)]
+        fin = _sorted_vals(list(obj.final_states)) or sts
+        obj.add_transition(src, TOK[a3 % 2], fin[a2 % len(fin)], ["v"])
+        return "add_transition(from fresh state to a final state)"
     if kind == "ig":
         prods = [r for r in obj.rules.rules if r.is_production()]
         if a0 % 2 == 0 and prods:
